@@ -922,9 +922,11 @@ PROP = Prop(
     level_text=("T on the model for ALL heaps and ALL interleavings: ownership of the clone (C13_clone_owns_itself), equality "
                 "of values / known periods / entity structure (roles, positions) / configuration right after clone() with the "
                 "original untouched (C13_clone_equal_initially); for memory-backed simulations disjoint footprints and "
-                "non-interference of observations and returned values (_partial: the unrestricted statements are false because "
-                "cloned holders share their OnDiskStorage and directory, finding F-C13-disk, proved as "
-                "C13_disk_shared_counterexample); any number of closed simulations never interfere "
+                "non-interference of observations and returned values (_partial: proved about cloneSim, the clone code without "
+                "its on-disk branch; the disk branch of the repaired code - repair C13-disk: own directory, copied files - is the "
+                "model cloneSimR, which the driver runs for every case and cross-checks against cloneSim on every memory-backed "
+                "clone; C13_disk_clone_separate proves the separation on the example, the correspondence carries it for "
+                "every generated disk-backed history, after which C13_family_noninterference applies); any number of closed simulations never interfere "
                 "(C13_family_noninterference) and every history of calls and clones - clones of clones, clones made after "
                 "failed requests and spirals - keeps the live simulations separate and clonable "
                 "(C13_histories_keep_simulations_separate); the interleaving theorem holds for ARBITRARY region-local "
